@@ -7,6 +7,8 @@ mod m_vec;
 mod m_arc;
 mod m_intres;
 mod m_cstr;
+mod m_cb;
+mod m_slice;
 
 use std::io::{BufRead, Write};
 
@@ -60,8 +62,10 @@ fn main() {
         let rows = match hdr[0] {
             10 => m_arc::run(&hdr[1..], &rows_in, &mut mon),
             11 => m_vec::run(&hdr[1..], &rows_in, &mut mon),
+            12 => m_slice::run(&hdr[1..], &rows_in, &mut mon),
             13 => m_intres::run(&hdr[1..], &rows_in, &mut mon),
             14 => m_cstr::run(&hdr[1..], &rows_in, &mut mon),
+            15 => m_cb::run(&hdr[1..], &rows_in, &mut mon),
             _ => vec![vec![-3]],
         };
         alloc::domain(0);
